@@ -1,5 +1,5 @@
 // auto-generated: "lalrpop 0.23.1"
-// sha3: aabda6227ae9ac0c3bb2ba7188f89dc10ba9fb34b031c9deb33261ccadf5210d
+// sha3: cd9b811aa723476ad43d7097bd0a9857290ccbdbea0c35607461b7653881ec4d
 use crate::rt::*;
 #[allow(unused_extern_crates)]
 extern crate lalrpop_util as __lalrpop_util;
@@ -29,44 +29,54 @@ mod __parse__S {
     }
     const __ACTION: &[i8] = &[
         // State 0
-        7, 0, 0, 6, 0, 0,
+        4, 0, 0, 3, 0, 0,
         // State 1
-        0, 0, 0, 6, 0, 0,
+        0, 0, 0, 0, 0, 0,
         // State 2
-        0, 0, 0, 6, 0, 0,
+        5, 0, 0, 0, 0, 0,
         // State 3
-        0, 0, 0, 6, 0, 0,
+        7, 6, 0, 0, 0, 0,
         // State 4
-        0, 0, 0, 0, 0, 0,
+        0, 0, 0, 0, 8, 0,
         // State 5
-        8, 0, 0, 0, 0, 0,
+        9, 0, 0, 0, 0, 0,
         // State 6
-        10, 9, 0, 0, 0, 0,
+        0, 10, 0, 0, 0, 0,
         // State 7
-        0, 0, 0, 0, 12, 0,
+        0, 0, 0, 11, 0, 0,
         // State 8
-        13, 0, 0, 0, 0, 0,
+        0, 0, 12, 0, 0, 0,
         // State 9
-        0, 14, 0, 0, 0, 0,
+        13, 0, 0, 0, 0, 0,
         // State 10
-        0, 0, 0, 0, 0, 15,
+        14, 0, 0, 0, 0, 0,
         // State 11
-        0, 0, 0, -3, 0, -3,
+        15, 0, 0, 0, 0, 0,
         // State 12
-        0, 0, 16, 0, 0, 0,
+        0, 0, 0, 16, 0, 0,
         // State 13
-        4, 0, 0, 0, 0, 0,
+        0, 0, 0, 0, 17, 0,
         // State 14
-        0, 0, 0, 0, 0, 0,
+        0, 18, 0, 0, 0, 0,
         // State 15
-        17, 0, 0, 0, 0, 0,
+        19, 0, 0, 0, 0, 0,
         // State 16
-        0, 19, 0, 0, 0, 0,
+        0, 0, 0, 20, 0, 0,
         // State 17
-        0, 0, 0, 0, 0, 0,
+        21, 0, 0, 0, 0, 0,
         // State 18
-        20, 0, 0, 0, 0, 0,
+        0, 0, 0, 0, 22, 0,
         // State 19
+        23, 0, 0, 0, 0, 0,
+        // State 20
+        0, 0, 0, 0, 0, 0,
+        // State 21
+        0, 0, 0, 0, 0, 0,
+        // State 22
+        0, 0, 0, 0, 24, 0,
+        // State 23
+        0, 0, 0, 0, 0, 25,
+        // State 24
         0, 0, 0, 0, 0, 0,
     ];
     fn __action(state: i8, integer: usize) -> i8 {
@@ -76,13 +86,13 @@ mod __parse__S {
         // State 0
         0,
         // State 1
-        0,
+        -8,
         // State 2
         0,
         // State 3
         0,
         // State 4
-        -8,
+        0,
         // State 5
         0,
         // State 6
@@ -96,33 +106,37 @@ mod __parse__S {
         // State 10
         0,
         // State 11
-        -3,
+        0,
         // State 12
         0,
         // State 13
         0,
         // State 14
-        -6,
+        0,
         // State 15
         0,
         // State 16
         0,
         // State 17
-        -7,
+        0,
         // State 18
         0,
         // State 19
+        0,
+        // State 20
         -5,
+        // State 21
+        -7,
+        // State 22
+        0,
+        // State 23
+        0,
+        // State 24
+        -6,
     ];
     fn __goto(state: i8, nt: usize) -> i8 {
         match nt {
-            2 => match state {
-                1 => 2,
-                2 => 10,
-                3 => 17,
-                _ => 1,
-            },
-            4 => 4,
+            4 => 1,
             _ => 0,
         }
     }
@@ -326,13 +340,13 @@ mod __parse__S {
             }
             5 => {
                 __state_machine::SimulatedReduce::Reduce {
-                    states_to_pop: 4,
+                    states_to_pop: 10,
                     nonterminal_produced: 4,
                 }
             }
             6 => {
                 __state_machine::SimulatedReduce::Reduce {
-                    states_to_pop: 5,
+                    states_to_pop: 7,
                     nonterminal_produced: 4,
                 }
             }
@@ -556,7 +570,7 @@ mod __parse__S {
         _: core::marker::PhantomData<()>,
     ) -> (usize, usize)
     {
-        // S = "id", ":", "id", "=", "id", ":", "id" => ActionFn(18);
+        // S = "id", ":", "id", "=", "id", ":", "id" => ActionFn(20);
         assert!(__symbols.len() >= 7);
         let __sym6 = __pop_Variant0(__symbols);
         let __sym5 = __pop_Variant0(__symbols);
@@ -567,7 +581,7 @@ mod __parse__S {
         let __sym0 = __pop_Variant0(__symbols);
         let __start = __sym0.0.clone();
         let __end = __sym6.2.clone();
-        let __nt = super::__action18::<>(__sym0, __sym1, __sym2, __sym3, __sym4, __sym5, __sym6);
+        let __nt = super::__action20::<>(__sym0, __sym1, __sym2, __sym3, __sym4, __sym5, __sym6);
         __symbols.push((__start, __Symbol::Variant2(__nt), __end));
         (7, 4)
     }
@@ -578,17 +592,23 @@ mod __parse__S {
         _: core::marker::PhantomData<()>,
     ) -> (usize, usize)
     {
-        // S = K, K, K, ";" => ActionFn(16);
-        assert!(__symbols.len() >= 4);
+        // S = "[", "id", "]", "[", "id", "]", "[", "id", "]", ";" => ActionFn(18);
+        assert!(__symbols.len() >= 10);
+        let __sym9 = __pop_Variant0(__symbols);
+        let __sym8 = __pop_Variant0(__symbols);
+        let __sym7 = __pop_Variant0(__symbols);
+        let __sym6 = __pop_Variant0(__symbols);
+        let __sym5 = __pop_Variant0(__symbols);
+        let __sym4 = __pop_Variant0(__symbols);
         let __sym3 = __pop_Variant0(__symbols);
-        let __sym2 = __pop_Variant2(__symbols);
-        let __sym1 = __pop_Variant2(__symbols);
-        let __sym0 = __pop_Variant2(__symbols);
+        let __sym2 = __pop_Variant0(__symbols);
+        let __sym1 = __pop_Variant0(__symbols);
+        let __sym0 = __pop_Variant0(__symbols);
         let __start = __sym0.0.clone();
-        let __end = __sym3.2.clone();
-        let __nt = super::__action16::<>(__sym0, __sym1, __sym2, __sym3);
+        let __end = __sym9.2.clone();
+        let __nt = super::__action18::<>(__sym0, __sym1, __sym2, __sym3, __sym4, __sym5, __sym6, __sym7, __sym8, __sym9);
         __symbols.push((__start, __Symbol::Variant2(__nt), __end));
-        (4, 4)
+        (10, 4)
     }
     fn __reduce6<
     >(
@@ -597,18 +617,20 @@ mod __parse__S {
         _: core::marker::PhantomData<()>,
     ) -> (usize, usize)
     {
-        // S = "id", "id", ":", "id", K => ActionFn(19);
-        assert!(__symbols.len() >= 5);
-        let __sym4 = __pop_Variant2(__symbols);
+        // S = "id", "id", ":", "id", "[", "id", "]" => ActionFn(21);
+        assert!(__symbols.len() >= 7);
+        let __sym6 = __pop_Variant0(__symbols);
+        let __sym5 = __pop_Variant0(__symbols);
+        let __sym4 = __pop_Variant0(__symbols);
         let __sym3 = __pop_Variant0(__symbols);
         let __sym2 = __pop_Variant0(__symbols);
         let __sym1 = __pop_Variant0(__symbols);
         let __sym0 = __pop_Variant0(__symbols);
         let __start = __sym0.0.clone();
-        let __end = __sym4.2.clone();
-        let __nt = super::__action19::<>(__sym0, __sym1, __sym2, __sym3, __sym4);
+        let __end = __sym6.2.clone();
+        let __nt = super::__action21::<>(__sym0, __sym1, __sym2, __sym3, __sym4, __sym5, __sym6);
         __symbols.push((__start, __Symbol::Variant2(__nt), __end));
-        (5, 4)
+        (7, 4)
     }
 }
 #[allow(unused_imports)]
@@ -974,6 +996,80 @@ fn __action18<
     __4: (i64, Tok, i64),
     __5: (i64, Tok, i64),
     __6: (i64, Tok, i64),
+    __7: (i64, Tok, i64),
+    __8: (i64, Tok, i64),
+    __9: (i64, Tok, i64),
+) -> Tree
+{
+    let __start0 = __0.0.clone();
+    let __end0 = __2.2.clone();
+    let __start1 = __3.0.clone();
+    let __end1 = __5.2.clone();
+    let __start2 = __6.0.clone();
+    let __end2 = __8.2.clone();
+    let __temp0 = __action13(
+        __0,
+        __1,
+        __2,
+    );
+    let __temp0 = (__start0, __temp0, __end0);
+    let __temp1 = __action13(
+        __3,
+        __4,
+        __5,
+    );
+    let __temp1 = (__start1, __temp1, __end1);
+    let __temp2 = __action13(
+        __6,
+        __7,
+        __8,
+    );
+    let __temp2 = (__start2, __temp2, __end2);
+    __action16(
+        __temp0,
+        __temp1,
+        __temp2,
+        __9,
+    )
+}
+
+#[allow(clippy::too_many_arguments, clippy::needless_lifetimes,
+    clippy::just_underscores_and_digits, clippy::clone_on_copy, clippy::unit_arg)]
+fn __action19<
+>(
+    __0: (i64, Tok, i64),
+    __1: (i64, Tree, i64),
+    __2: (i64, Tok, i64),
+    __3: (i64, Tok, i64),
+    __4: (i64, Tok, i64),
+) -> Tree
+{
+    let __start0 = __2.0.clone();
+    let __end0 = __4.2.clone();
+    let __temp0 = __action13(
+        __2,
+        __3,
+        __4,
+    );
+    let __temp0 = (__start0, __temp0, __end0);
+    __action17(
+        __0,
+        __1,
+        __temp0,
+    )
+}
+
+#[allow(clippy::too_many_arguments, clippy::needless_lifetimes,
+    clippy::just_underscores_and_digits, clippy::clone_on_copy, clippy::unit_arg)]
+fn __action20<
+>(
+    __0: (i64, Tok, i64),
+    __1: (i64, Tok, i64),
+    __2: (i64, Tok, i64),
+    __3: (i64, Tok, i64),
+    __4: (i64, Tok, i64),
+    __5: (i64, Tok, i64),
+    __6: (i64, Tok, i64),
 ) -> Tree
 {
     let __start0 = __0.0.clone();
@@ -1001,13 +1097,15 @@ fn __action18<
 
 #[allow(clippy::too_many_arguments, clippy::needless_lifetimes,
     clippy::just_underscores_and_digits, clippy::clone_on_copy, clippy::unit_arg)]
-fn __action19<
+fn __action21<
 >(
     __0: (i64, Tok, i64),
     __1: (i64, Tok, i64),
     __2: (i64, Tok, i64),
     __3: (i64, Tok, i64),
-    __4: (i64, Tree, i64),
+    __4: (i64, Tok, i64),
+    __5: (i64, Tok, i64),
+    __6: (i64, Tok, i64),
 ) -> Tree
 {
     let __start0 = __1.0.clone();
@@ -1018,10 +1116,12 @@ fn __action19<
         __3,
     );
     let __temp0 = (__start0, __temp0, __end0);
-    __action17(
+    __action19(
         __0,
         __temp0,
         __4,
+        __5,
+        __6,
     )
 }
 
